@@ -11,7 +11,7 @@ from ..cxx_ir import CALL_KINDS, CTOR_KINDS
 from ..cfg import cfg_of, const_eval, switch_arms
 from ..descriptors import arm_descriptors, ArmWalker, Descriptor, self_names_of, loop_direction
 from ..effects import external_effects
-from ..py_frontend import dotted, call_name, calls_under, walk, is_name, src
+from ..py_frontend import dotted, call_name, calls_under, walk, is_name, src, pmatch
 from .common import (short, inst, live_funcs, calls_in, callee_func, member_path, enclosing_map,
                      ancestors, kind_switches, local_inits, strip_casts, ALL_KINDS)
 
@@ -751,22 +751,29 @@ def t4(ctx):
                       '%s: Python metadata is %s, the engine stores %s' % (kind, m, ed.meta),
                       mod.loc(mod.func(fl)))
     # unflatten handlers
+    # (patterns over the two positional parameters M = metadata, C = children; local names free)
     checks = {
-        '_tuple_unflatten': r'tuple\(children\)',
-        '_list_unflatten': r'list\(children\)',
-        '_deque_unflatten': r'deque\(children, maxlen=maxlen\)',
-        '_namedtuple_unflatten': r'cls\(\*children\)',
-        '_structseq_unflatten': r'cls\(children\)',
-        '_ordereddict_unflatten': r'OrderedDict\(safe_zip\(keys, values\)\)',
-        '_dict_unflatten': r'dict\(safe_zip\(keys, values\)\)',
-        '_defaultdict_unflatten': r'defaultdict\(default_factory, _dict_unflatten\(keys, values\)\)',
+        '_tuple_unflatten': 'tuple(?C)',
+        '_list_unflatten': 'list(?C)',
+        '_deque_unflatten': 'deque(?C, maxlen=?M)',
+        '_namedtuple_unflatten': '?M(*?C)',
+        '_structseq_unflatten': '?M(?C)',
+        '_ordereddict_unflatten': 'OrderedDict(safe_zip(?M, ?C))',
+        '_dict_unflatten': 'dict(safe_zip(?M, ?C))',
+        '_defaultdict_unflatten': 'defaultdict(?df, _dict_unflatten(?keys, ?C))',
     }
-    for name, rx in checks.items():
+    for name, pat in checks.items():
         fn = mod.func(name)
-        ret = [s for s in fn.body if isinstance(s, ast.Return)]
-        ok = bool(ret) and re.fullmatch(rx, src(ret[0].value)) is not None
+        ps = [a.arg for a in fn.args.posonlyargs + fn.args.args]
+        ctx.require(len(ps) == 2, 'registry.%s: %d parameters' % (name, len(ps)))
+        env = {'M': ps[0], 'C': ps[1]}
+        if name == '_defaultdict_unflatten':
+            un = [e for e in (pmatch(s_, '?df, ?keys = ?M', env) for s_ in fn.body) if e is not None]
+            env = un[0] if un else None
+        ret = [s_ for s_ in fn.body if isinstance(s_, ast.Return)]
+        ok = bool(ret) and env is not None and pmatch(ret[0].value, pat, env) is not None
         ctx.check('registry.%s' % name, ok,
-                  '%s rebuilds the container the way MakeNode does (%s)' % (name, rx.replace('\\', '')),
+                  '%s rebuilds the container the way MakeNode does (%s)' % (name, pat.replace('?', '')),
                   '%s returns %s' % (name, src(ret[0].value) if ret else None), mod.loc(fn))
     # insertion-ordered variants do not sort, default ones do
     for name, want in (('_dict_flatten', 'SORTED'), ('_dict_insertion_ordered_flatten', 'OWN-ORDER'),
